@@ -90,7 +90,7 @@ Proof.
   destruct (str_eqb x i) eqn:E.
   - apply str_eqb_eq in E. subst i. rewrite !cset_cset. reflexivity.
   - assert (Hn : x <> i) by (intros ->; rewrite str_eqb_refl in E; discriminate).
-    rewrite (cset_swap_present (cset c x (VS e)) x i (VS e') (VS (enc_dec n)) (VS e) Hn (cget_cset_same _ _ _)).
+    rewrite (cset_swap_present (cset c x (VS e)) x i (VS e') (VI n) (VS e) Hn (cget_cset_same _ _ _)).
     rewrite !cset_cset. reflexivity.
 Qed.
 
@@ -136,12 +136,12 @@ Proof.
         destruct tol; intros H; inversion H; reflexivity.
     + assert (Hn : x <> i) by (intros ->; rewrite str_eqb_refl in E; discriminate).
       destruct (cget c x) as [v|] eqn:Ex; unfold crestore.
-      * rewrite (cset_swap_present (cset c x (VS e)) x i v (VS (enc_dec n)) (VS e) Hn (cget_cset_same _ _ _)).
+      * rewrite (cset_swap_present (cset c x (VS e)) x i v (VI n) (VS e) Hn (cget_cset_same _ _ _)).
         rewrite cset_cset, (cset_same _ _ _ Ex).
         destruct (cget c i) as [w|] eqn:Ei.
         -- rewrite cset_cset. intros H. inversion H; subst. apply cset_same. exact Ei.
         -- rewrite (cpop_cset_fresh _ _ _ Ei). intros H. inversion H; reflexivity.
-      * rewrite (cpop_cset2_fresh c x i (VS e) (VS (enc_dec n)) Hn Ex).
+      * rewrite (cpop_cset2_fresh c x i (VS e) (VI n) Hn Ex).
         destruct (cget c i) as [w|] eqn:Ei.
         -- rewrite cset_cset. intros H. inversion H; subst. apply cset_same. exact Ei.
         -- rewrite (cpop_cset_fresh _ _ _ Ei). intros H. inversion H; reflexivity.
@@ -212,10 +212,10 @@ Proof.
       destruct (i_vars row) as [|x rest]; [discriminate|]. destruct x as [|x0 xr]; [discriminate|].
       set (x := x0 :: xr) in *.
       set (idx := match rest with i :: _ => match i with [] => None | _ => Some i end | [] => None end) in *.
-      destruct (loop_iter (fun st => parse_block pol ScopeRestore emp tol rows f st BFor false) (p_pos s1) x idx (i_iter row) 0 s1)
+      destruct (loop_iter (fun st => parse_block pol ScopeRestore emp tol rows f st BFor false) (p_pos s1) x idx (i_iter row) 0 (log s1 EvPush))
         as [s3|] eqn:E3; [|discriminate].
       assert (Hinv3 : p_ctx s3 = p_ctx s1 \/ exists e m, p_ctx s3 = bind_loop (p_ctx s1) x idx e m).
-      { refine (loop_iter_ctx _ _ x idx (p_ctx s1) _ _ _ _ _ (or_introl eq_refl) E3).
+      { refine (loop_iter_ctx _ _ x idx (p_ctx s1) _ _ _ (log s1 EvPush) _ (or_introl eq_refl) E3).
         intros st st' Hb. apply IH in Hb. exact Hb. }
       assert (Hskip : forall s3', match i_iter row, emp with
                                   | [], EmptySkip => parse_block pol ScopeRestore emp tol rows f (log s3 (EvEnter BFor true)) BFor true
@@ -239,7 +239,7 @@ Proof.
         apply IH in H. cbn [p_ctx] in H. rewrite H, (Hrest _ eq_refl). exact Hc1.
       * apply IH in H. cbn [p_ctx] in H. rewrite H, (Hrest _ eq_refl). exact Hc1.
     + apply IH in H. cbn [log p_ctx] in H. congruence.
-    + destruct (parse_block pol ScopeRestore emp tol rows f (log s1 (EvEnter BBlock false)) BBlock false) as [s2|] eqn:E2; [|discriminate].
+    + destruct (parse_block pol ScopeRestore emp tol rows f (log (log s1 EvPush) (EvEnter BBlock false)) BBlock false) as [s2|] eqn:E2; [|discriminate].
       apply IH in E2. apply IH in H. cbn [log p_ctx] in E2, H. congruence.
     + apply IH in H. cbn [log p_ctx] in H. congruence.
     + apply IH in H. cbn [log p_ctx] in H. congruence.
@@ -318,7 +318,7 @@ Theorem empty_loop_pass_through : forall pol rows f s bt s1 row x rest,
   i_kind row = KBeginFor -> i_inc row = true -> i_iter row = [] ->
   i_vars row = x :: rest -> x <> [] ->
   parse_block pol ScopeRestore EmptySkip true rows (S f) s bt false
-  = match parse_block pol ScopeRestore EmptySkip true rows f (log s1 (EvEnter BFor true)) BFor true with
+  = match parse_block pol ScopeRestore EmptySkip true rows f (log (log s1 EvPush) (EvEnter BFor true)) BFor true with
     | ROk s2 => parse_block pol ScopeRestore EmptySkip true rows f (log s2 (EvEnd (i_id row))) bt false
     | RErr e => RErr e
     end.
@@ -326,7 +326,7 @@ Proof.
   intros pol rows f s bt s1 row x rest En Hk Hi Hit Hv Hx.
   cbn [parse_block]. rewrite En. cbn [option_map]. rewrite Hk, end_of_block_for, Hi. cbn [orb negb].
   rewrite Hv, Hit. destruct x as [|x0 xr]; [contradiction|]. cbn [loop_iter].
-  destruct (parse_block pol ScopeRestore EmptySkip true rows f (log s1 (EvEnter BFor true)) BFor true) as [s2|] eqn:E2; [|reflexivity].
+  destruct (parse_block pol ScopeRestore EmptySkip true rows f (log (log s1 EvPush) (EvEnter BFor true)) BFor true) as [s2|] eqn:E2; [|reflexivity].
   destruct (omit_is_inert _ _ _ _ _ _ _ _ _ E2) as [Hc2 _]. cbn [log p_ctx] in Hc2.
   cbn [log p_ctx p_pos p_log saved_of]. rewrite Hc2, crestore_tolerant.
   destruct rest as [|i rest']; [|destruct i as [|i0 ir]].
@@ -357,7 +357,7 @@ Example ctx_preserved_nonvacuous :
   = ROk (mkP 4 w_ctx
            [EvRow [] [97; 102; 116; 101; 114; 32; 67; 88; 86; 65; 76]; EvInst 3; EvEnd [49];
             EvInst 2; EvRow [] [49; 98]; EvInst 1; EvEnter BFor false;
-            EvInst 2; EvRow [] [48; 97]; EvInst 1; EvEnter BFor false; EvInst 0]).
+            EvInst 2; EvRow [] [48; 97]; EvInst 1; EvEnter BFor false; EvPush; EvInst 0]).
 Proof. vm_compute. reflexivity. Qed.
 
 (* the code before the repair (dict.pop): the same sheet loses the outer binding — an error
@@ -386,7 +386,7 @@ Example empty_loop_pass_through_nonvacuous :
                   /\ i_kind row = KBeginFor /\ i_inc row = true /\ i_iter row = [] /\ i_vars row = [[120]])
   /\ parse_block Strict ScopeRestore EmptySkip true e_rows 50 (mkP 0 e_ctx []) BRoot false
      = ROk (mkP 8 e_ctx [EvRow [] [98; 121; 101]; EvInst 7; EvEnd [50]; EvEnter BBlock true; EvEnter BFor true;
-                         EvInst 1; EvRow [] [104; 105]; EvInst 0])
+                         EvPush; EvInst 1; EvRow [] [104; 105]; EvInst 0])
   (* the code before the repair: the loop variable was never added *)
   /\ parse_block Strict ScopePop EmptyFallThrough false e_rows 50 (mkP 0 e_ctx []) BRoot false = RErr KeyErr.
 Proof.
